@@ -181,6 +181,15 @@ func init() {
 			e.extra["now_hook"] = a[0]
 			return nil
 		},
+		"vfHavocLoads": func(e *Exec, fn *ssa.Function, a []Value) Value {
+			h, _ := e.extra["havoc"].(map[*Value]int)
+			if h == nil {
+				h = map[*Value]int{}
+				e.extra["havoc"] = h
+			}
+			h[a[0].(*Value)] = e.argInt(a[1], "vfHavocLoads")
+			return nil
+		},
 		"vfChanUnbounded": func(e *Exec, fn *ssa.Function, a []Value) Value {
 			e.extra["chan_unbounded"] = true
 			return nil
@@ -254,7 +263,22 @@ func init() {
 	// --- sync/atomic ---
 	for _, ty := range []string{"Int32", "Int64", "Uint32", "Uint64", "Uintptr"} {
 		ty := ty
-		stubs["sync/atomic.Load"+ty] = func(e *Exec, fn *ssa.Function, a []Value) Value { return copyVal(*a[0].(*Value)) }
+		stubs["sync/atomic.Load"+ty] = func(e *Exec, fn *ssa.Function, a []Value) Value {
+			// vfHavocLoads(p, n): the next n atomic loads of *p return an arbitrary value each (other threads may
+			// have written it meanwhile); afterwards the cell is read as it is
+			if h, ok := e.extra["havoc"].(map[*Value]int); ok {
+				p := a[0].(*Value)
+				if n := h[p]; n > 0 {
+					h[p] = n - 1
+					k, _ := e.extra["havoc_seq"].(int)
+					e.extra["havoc_seq"] = k + 1
+					if t, isT := (*p).(*Term); isT {
+						return e.input(fmt.Sprintf("havoc%02d", k), t.w)
+					}
+				}
+			}
+			return copyVal(*a[0].(*Value))
+		}
 		stubs["sync/atomic.Store"+ty] = func(e *Exec, fn *ssa.Function, a []Value) Value { *a[0].(*Value) = a[1]; return nil }
 		stubs["sync/atomic.Add"+ty] = func(e *Exec, fn *ssa.Function, a []Value) Value {
 			p := a[0].(*Value)
